@@ -2,6 +2,12 @@
 DEFERRED = "rules for this property are not armed yet (build order: DESIGN.md Appendix D); not claimed until a self-tested rule exists"
 
 CLAIMS = {
+    "C07": {
+        "level": "other",
+        "text": "Binary row layout rules: bitmap length (n+9)/8 and NULL bit (c+2)/8, (c+2)%8 as affine normal forms (offset 2 in all three places, for every column count); row header 00 once at column 0 followed by a zero-filled bitmap of bitmap_len bytes, relying on the buffer being empty (constructor + clear() in end_row, which writes the buffer whole before exactly one packet end); NULL for NOT NULL refused, NULL never encoded, non-NULL never sets a bit; per (impl, column-type arm) emission layouts for f32/f64/byte strings/DATE/DATETIME/TIME vs the protocol, with length-byte self-consistency, slot sources by accessor name, TIME div/mod formulas, zero-length TIME only when seconds and micros are zero, 7-byte DATETIME exactly when the fraction is zero, other column types refused.",
+        "note": "Trusted: chrono accessors, lenenc writer. Integer exactness is C15's. Generic Value::Date/Time conversion through chrono is not decided.",
+        "technique": "affine normal forms, emission-sequence analysis per column-type arm, path rules on write_col/end_row",
+    },
     "C08": {
         "level": "other",
         "text": "Reader-side layout rules for COM_STMT_EXECUTE parameters: NULL bitmap = payload[0..(params+7)/8) (affine), NULL test = byte col/8 bit col%8, per column-type arm and unsigned flag of the value parser the exact sequence of stateful cursor reads (widths, signedness, lenenc + guarded split, length byte + guarded split) and the variant produced, widening only; one column increment per yielded parameter, stop at col >= params, params = the statement's declared count; encoder/decoder agree on the 14 byte-string column types; the temporal converters' accepted length forms vs the protocol's, and satisfiability of every length test given the bytes already consumed (found and fixed: microseconds never decoded, 4-byte DATETIME panicked; zero-date forms remain known findings). Flag byte / type table / value start offsets are C16's rules.",
